@@ -7,5 +7,5 @@ CONSTANTS
 INIT Init
 NEXT Next
 INVARIANT TypeOK
-PROPERTIES FrameProperty CopyProperty StoreProperty
+PROPERTIES FrameProperty CopyProperty StoreProperty RotateProperty
 CHECK_DEADLOCK FALSE
